@@ -117,6 +117,17 @@ def splitBar : List String → List (List String)
 def namesOf (t : String) : List String :=
   ((String.ofList (t.toList.drop 1)).splitOn ",").filter (fun s => !s.isEmpty)
 
+/-- One wire operation = one or more model steps.  `xinit p <value>`: ANOTHER session creates the job —
+    open by state point, `init`, forget the handle (a private handle name no history uses). -/
+def parseOps (ts : List String) : Option (List Op) :=
+  match ts with
+  | "xinit" :: p :: rest => do
+    let p ← p.toNat?
+    let (v, r) ← parseValue rest
+    if r.isEmpty then pure [.openSp "\x01other-session" p v, .init "\x01other-session", .drop "\x01other-session"]
+    else none
+  | _ => (parseOp ts).map fun op => [op]
+
 def runLine (groups : List (List String)) : String :=
   let rec go (w : World) (gs : List (List String)) (acc : List String) : List String :=
     match gs with
@@ -125,10 +136,16 @@ def runLine (groups : List (List String)) : String :=
       let (opToks, names) := match g.reverse with
         | last :: init => if last.startsWith "@" then (init.reverse, namesOf last) else (g, [])
         | [] => (g, [])
-      match parseOp opToks with
+      match parseOps opToks with
       | none => ("bad-op" :: acc).reverse
-      | some op =>
-        let (w', r) := step calcId w op
+      | some ops =>
+        -- the result of a macro is that of its first failing step, else of the `init` (second) step
+        let (w', r) := ops.foldl (fun (wr : World × Option Res) op =>
+          let (w2, r2) := step calcId wr.1 op
+          (w2, match wr.2 with
+               | some prev => if prev.isOk then (if op matches .drop _ then some prev else some r2) else some prev
+               | none => some r2)) (w, none)
+        let r := r.getD .ok
         let out := resStr r ++ ":" ++ calcId (jobsVal w'.p0) ++ ":" ++ calcId (jobsVal w'.p1) ++ ":"
                    ++ calcId (handlesVal w'.handles names)
         go w' rest (out :: acc)
